@@ -77,6 +77,7 @@ impl DerivedTS {
             &generics,
             self.bound.as_deref(),
             &self.dependencies,
+            &self.concrete,
         );
         let assoc_type = generate_assoc_type(&rust_ty, &crate_rename, &generics, &self.concrete);
         let name = self.generate_name_fn(&generics);
@@ -333,6 +334,7 @@ fn generate_impl_block_header(
     generics: &Generics,
     bounds: Option<&[WherePredicate]>,
     dependencies: &Dependencies,
+    concrete: &HashMap<Ident, Type>,
 ) -> TokenStream {
     use GenericParam as G;
 
@@ -365,7 +367,7 @@ fn generate_impl_block_header(
     let where_bound = match bounds {
         Some(bounds) => quote! { where #(#bounds),* },
         None => {
-            let bounds = generate_where_clause(crate_rename, generics, dependencies);
+            let bounds = generate_where_clause(crate_rename, generics, dependencies, concrete);
             quote! { #bounds }
         }
     };
@@ -377,7 +379,16 @@ fn generate_where_clause(
     crate_rename: &Path,
     generics: &Generics,
     dependencies: &Dependencies,
+    concrete: &HashMap<Ident, Type>,
 ) -> WhereClause {
+    // `name()` and `visit_generics()` go through every type parameter that is not concretised,
+    // whether or not a field mentions it (a `#[ts(type = "..")]` or `#[ts(as = "..")]` may hide it)
+    let type_params: Vec<Type> = generics
+        .type_params()
+        .filter(|param| !concrete.contains_key(&param.ident))
+        .map(|TypeParam { ident, .. }| parse_quote!(#ident))
+        .collect();
+
     let used_types = {
         let is_type_param = |id: &Ident| generics.type_params().any(|p| &p.ident == id);
 
@@ -385,6 +396,7 @@ fn generate_where_clause(
         for ty in dependencies.used_types() {
             used_type_params(&mut used_types, ty, is_type_param);
         }
+        used_types.extend(type_params.iter());
         used_types.into_iter()
     };
 
